@@ -91,7 +91,8 @@ InContract(p, c) ==
   /\ (c.op = "set_vertex" => c.l[1] < p.mesh[c.a].n["V"])
   /\ (c.op = "mesh_new" => ~p.mesh[c.a].alive)
   /\ (c.op = "mesh_copy" => ~p.mesh[c.a].alive /\ p.mesh[c.l[1]].alive)
-  /\ (c.op = "mesh_assign" => p.mesh[c.l[1]].alive)
+  /\ (c.op = "mesh_assign" => p.mesh[c.l[1]].alive /\ Assignable(p.mesh[c.a].ty, p.mesh[c.l[1]].ty))
+  /\ (c.op \in {"set_vertex", "persist_pos", "pos_handle"} => Geometric(p.mesh[c.a].ty))
   /\ (c.op \in {"h_copy", "h_move"} => c.l[1] \in DOMAIN p.slot /\ c.l[1] # c.b)
 
 (* ----------------------------- one line -------------------------------- *)
